@@ -7,7 +7,7 @@ from suites import run_suite, parse_snap, exp_silent
 
 LEAN_MODULES = ['GoSnaps.Props.C08', 'GoSnaps.Props.Tie.Skip', 'GoSnaps.Props.Tie.TestID', 'GoSnaps.Props.Tie.CleanIO', 'GoSnaps.Props.Tie.CleanTopIO1', 'GoSnaps.Props.Tie.CleanTopIO2', 'GoSnaps.Props.Tie.CleanTopIO3', 'GoSnaps.Props.Tie.CleanTopIO', 'GoSnaps.Props.Tie.EndToEndSkip']
 
-TESTS = ['TestAPI', 'TestAPI//users', 'TestAPI//users/list', 'TestAPI/v1./x', 'TestV2', 'TestA/case_2', 'TestA/x#01', 'TestA', 'TestA/x', 'TestA/x/deep', 'TestA/y', 'TestAB', 'TestAB/x', 'TestB', 'TestB/A_case', 'TestB/sub', 'TestC/TestA', 'TestZed']
+TESTS = ['TestA/returns_(nil)', 'TestA/a+b', 'TestB/items[0]', 'TestB/open(', 'TestAPI', 'TestAPI//users', 'TestAPI//users/list', 'TestAPI/v1./x', 'TestV2', 'TestA/case_2', 'TestA/x#01', 'TestA', 'TestA/x', 'TestA/x/deep', 'TestA/y', 'TestAB', 'TestAB/x', 'TestB', 'TestB/A_case', 'TestB/sub', 'TestC/TestA', 'TestZed']
 PATTERNS = ['', '', 'TestA', '^TestA$', 'TestA/x', 'TestA|TestB', 'A', 'TestB/sub', '^TestZ', 'Test[AB]$', 'TestA/[xy]', 'Nothing', 'TestA$/x$', '(TestA|TestZed)/x']
 
 
@@ -157,12 +157,16 @@ def render(tag, spec):
                                hx(b''.join(frame(('%s - %d' % (t, k)).encode(), ('v-%s-%d' % (t, k)).encode()) for t, k in entries2))))
     tops = sorted(set(t.split('/')[0] for t in tests))
     tops2 = sorted(set(t.split('/')[0] for t, _ in entries2)) if has_go2 else []
-    gosrc = 'package pkg\n\nimport "testing"\n\n' + ''.join('func %s(t *testing.T) {}\n' % f for f in tops if f not in tops2)
+    # (text that merely LOOKS like a declaration - Go source kept in a raw string, a test disabled inside a comment -
+    # declares nothing: only real top-level functions count when -run is matched against a test file)
+    fake = ''.join('func %s(t *testing.T) {}\n' % f for f in tops)
+    decoy_src = 'var fixture = `\n%s`\n\n/*\n%s*/\n' % (fake, fake)
+    gosrc = 'package pkg\n\nimport "testing"\n\n' + ''.join('func %s(t *testing.T) {}\n' % f for f in tops if f not in tops2) + decoy_src
     w.add('fsput %s %s' % (hx('pkg/zz_verif_harness_test.go'), hx(gosrc)))
     if has_go2 and entries2:
         # the tests whose snapshots live in the second file are declared in the test file it is named after
         w.add('fsput %s %s' % (hx('pkg/%s.go' % name2),
-                               hx('package pkg\n\nimport "testing"\n\n' + ''.join('func %s(t *testing.T) {}\n' % f for f in tops2))))
+                               hx('package pkg\n\nimport "testing"\n\n' + ''.join('func %s(t *testing.T) {}\n' % f for f in tops2) + decoy_src.replace('fixture', 'fixture2'))))
     texec = 0
     for t in tests:
         if t in skip_calls:
